@@ -29,10 +29,16 @@ def mk_record(spec):
     if "refs" in spec:
         refs = []
         for t in spec["refs"]:
+            # "title" or "title|journal|start-end|comment": references may differ in any one field only
+            fields = (t.split("|") + ["", "", ""])[:4]
             r = Reference()
-            r.title = t
+            r.title = fields[0]
             r.authors = "A. Author"
-            r.journal = "J. %s" % t
+            r.journal = fields[1] or "J. %s" % fields[0]
+            if fields[2]:
+                a, b = fields[2].split("-")
+                r.location = [FeatureLocation(int(a), int(b))]
+            r.comment = fields[3]
             refs.append(r)
         ann["references"] = refs
     if spec.get("linear"):
@@ -41,7 +47,12 @@ def mk_record(spec):
 
 
 def ref_key(r):
-    return getattr(r, "title", None) or str(r)
+    """identity of a reference for the traces: every field Biopython's Reference.__eq__ looks at"""
+    if not hasattr(r, "title"):
+        return str(r)
+    loc = ",".join("%d-%d" % (int(l.start), int(l.end)) for l in (getattr(r, "location", None) or []))
+    return "|".join([r.title or "", r.journal or "", loc, getattr(r, "comment", "") or "", r.authors or "",
+                     getattr(r, "pubmed_id", "") or "", getattr(r, "medline_id", "") or "", getattr(r, "consrtm", "") or ""])
 
 
 _CIT = re.compile(r"^\[(\d+)\]$")
